@@ -609,7 +609,7 @@ def corr_parse(ck):
     for k in (1, 2):
         prefixes += [''.join(t) for t in itertools.product(BODY_ALPHA, repeat=k)]
     p3 = [''.join(t) for t in itertools.product(BODY_ALPHA, repeat=3)]
-    prefixes += p3 if ck.tier == 'thorough' else rng.sample(p3, 120)
+    prefixes += p3 if ck.tier == 'thorough' else rng.sample(p3, 60)
     p4 = [''.join(rng.choice(BODY_ALPHA) for _ in range(rng.choice([4, 5, 6, 7]))) for _ in range(80 if ck.tier == 'quick' else 3000)]
     prefixes += p4
     classes = {}
@@ -627,7 +627,7 @@ def corr_parse(ck):
             note(x, p_, a_)
         bp.add(f'sw_parse {cstr(pre)} al {cstr(chr(10).join(rp))}', (pre, rp))
         ba.add(f'sw_atom {cstr(pre)} al {cstr(chr(10).join(ra))}', (pre, ra))
-    bodies = gen_bodies(ck, rng, 500 if ck.tier == 'quick' else 7000)
+    bodies = gen_bodies(ck, rng, 350 if ck.tier == 'quick' else 7000)
     for i in range(0, len(bodies), 25):
         part = bodies[i:i + 25]
         rp = [real_parse(x) for x in part]
@@ -835,10 +835,10 @@ def corr_tokens(ck):
     bt = Batches('c08_tok', extra=f'Definition al : string := {cstr(TOK_ALPHA)}.')
     prefixes = [''] + list(TOK_ALPHA) + [''.join(t) for t in itertools.product(TOK_ALPHA, repeat=2)]
     p3 = [''.join(t) for t in itertools.product(TOK_ALPHA, repeat=3)]
-    prefixes += p3 if ck.tier == 'thorough' else rng.sample(p3, 100)
-    prefixes += [''.join(rng.choice(TOK_ALPHA) for _ in range(rng.choice([4, 5, 6, 8]))) for _ in range(100 if ck.tier == 'quick' else 2000)]
+    prefixes += p3 if ck.tier == 'thorough' else rng.sample(p3, 50)
+    prefixes += [''.join(rng.choice(TOK_ALPHA) for _ in range(rng.choice([4, 5, 6, 8]))) for _ in range(60 if ck.tier == 'quick' else 2000)]
     # prefixes that end inside a bond token, so that every one-character continuation of every bond state is seen
-    prefixes += ['C' + ''.join(t) for k in (1, 2, 3) for t in itertools.product(BOND_ALPHA, repeat=k)]
+    prefixes += ['C' + ''.join(t) for k in ((1, 2) if ck.tier == 'quick' else (1, 2, 3)) for t in itertools.product(BOND_ALPHA, repeat=k)]
     seen = set()
     for pre in prefixes:
         if pre in seen:
@@ -851,7 +851,7 @@ def corr_tokens(ck):
             ck.count('tokenize:' + (r[:2] if r.startswith('!') else 'ok'))
         bt.add(f'sw_tokens {cstr(pre)} al {cstr(chr(10).join(rt))}', (pre, rt))
     # smarts_tokenize on whole SMARTS (bracket bodies parsed)
-    texts = gen_smarts(rng, 300 if ck.tier == 'quick' else 3000)
+    texts = gen_smarts(rng, 200 if ck.tier == 'quick' else 3000)
     texts = [t for t in texts if all(32 < ord(c) < 127 and c != '"' for c in t)]
     for i in range(0, len(texts), 20):
         part = texts[i:i + 20]
